@@ -125,7 +125,7 @@ func runE2(p *Prog, r *Report) {
 	}
 	sort.Strings(names)
 	r.Counts["E2.internal-collectors-returning-unsorted(callers must sort)"] = len(names)
-	r.ExpectMin("E2.map-ranges", st.nMapRanges, 45)
+	r.ExpectMin("E2.map-ranges", st.nMapRanges, 35)
 	r.Clauses = append(r.Clauses,
 		"E2 every range over a map (and over a slice filled in map order) is classified; slices appended to in such loops cross a sort call on every path before they are returned by a public API, stored into a result, or iterated into another ordered result; internal collectors that return unsorted slices put the obligation on all their callers (fixed point)",
 		"E2 no return/break/outer assignment inside a map range depends on which element was seen first (reviewed position-exclusive exceptions aside)")
